@@ -159,6 +159,7 @@ func init() {
 						}
 						jar.applyAll(r)
 						obs["status"] = r.Status
+						obs["redirected"] = r.Status >= 300 && r.Status < 400 // the success redirect, whichever 3xx it uses
 						obs["sessionCookiesLeft"] = len(w.slotNames(jar))
 						obs["deletedAll"] = deletedAll
 						obs["deletionAttrsMatch"] = attrsMatch
